@@ -241,7 +241,7 @@ fn own_members(seq: &Option<Seq>, attrs: &[Attr], tns: &str, ix: &Index) -> Vec<
 fn complex_members(ct: &ComplexType, tns: &str, ix: &Index, depth: usize) -> Vec<ExpMember> {
     let mut out = vec![];
     if let Some(b) = &ct.base {
-        if depth < 8 {
+        if depth < 64 {
             if let Some((Comp::Complex(bt), bf)) = ix.types.get(&(b.ns.clone(), b.local.clone())).map(|(c, f)| (*c, *f)) {
                 for mut m in complex_members(bt, &bf.tns, ix, depth + 1) {
                     m.origin = "inherited";
